@@ -273,9 +273,19 @@ impl WyRand {
 
 #[cfg(any(test, feature = "std"))]
 pub fn aligned_buf(size: usize) -> &'static mut [u8] {
-    use std::alloc::{Layout, alloc_zeroed};
-    let ptr = unsafe { alloc_zeroed(Layout::from_size_align(size, align_of::<Align>()).unwrap()) };
-    unsafe { std::slice::from_raw_parts_mut(ptr, size) }
+    use std::alloc::{Layout, alloc_zeroed, handle_alloc_error};
+    let layout = Layout::from_size_align(size, align_of::<Align>()).unwrap();
+    if size != 0 {
+        let ptr = unsafe { alloc_zeroed(layout) };
+        if ptr.is_null() {
+            handle_alloc_error(layout);
+        }
+        unsafe { std::slice::from_raw_parts_mut(ptr, size) }
+    } else {
+        // Zero-sized allocations are not allowed: use an aligned dangling pointer
+        let ptr = core::ptr::NonNull::<Align>::dangling().as_ptr().cast::<u8>();
+        unsafe { std::slice::from_raw_parts_mut(ptr, 0) }
+    }
 }
 
 #[cfg(test)]
